@@ -82,6 +82,7 @@ def write_conf(cfg, mtime=900000):
     os.unlink(os.path.join(conf, name))
   settings = dict(BASE_SETTINGS)
   settings.update(cfg.get('settings', {}))
+  settings.pop('deep_backlog', None)        # generator-internal marker, not a carbon setting
   section = SECTION[cfg['daemon']]
   lines = ['[%s]' % section]
   for k in sorted(settings):
